@@ -1084,6 +1084,7 @@ func callBuiltin(caller *frame, fn *ssa.Builtin, args []value) value {
 	case "clear":
 		switch x := args[0].(type) {
 		case *omap:
+			caller.m.noteMap(caller, x, true)
 			x.clear()
 		case []value:
 			var tElt types.Type
@@ -1224,6 +1225,7 @@ func callBuiltin(caller *frame, fn *ssa.Builtin, args []value) value {
 func rangeIter(fr *frame, x value) iter {
 	switch x := x.(type) {
 	case *omap:
+		fr.m.noteMap(fr, x, false)
 		order := x.live()
 		if len(order) > 1 && fr.m.mapOrderApplies(fr) {
 			// all permutations as a sequence of choices
